@@ -79,6 +79,12 @@ Theorem C01_uncounted_only_macro : forall k a, (passes k a = false -> counted k 
 Proof. exact (fun k a => conj (fail_is_counted k a) (uncounted_only_macro k a)). Qed.
 Print Assumptions C01_uncounted_only_macro.
 
+(* D20 (fixed in /repo ff2a581): the CHECK_COMPARE_LOCATION macro as it was -- the failure printed at the place of the macro expansion
+   whatever location it was given -- violates the property: the oracle rejects that observation *)
+Theorem C01_compare_macro_old_refuted : ~ compare_macro_old_stmt.
+Proof. exact compare_macro_old_refuted. Qed.
+Print Assumptions C01_compare_macro_old_refuted.
+
 (* the jump-buffer index returns to its pre-test value after every test, for every mix of failure kinds *)
 Theorem C01_depth_restored : forall exc r i t s, ok_test exc r t = true ->
   depth (fst (run_one_test exc r i t s)) = depth s.
